@@ -28,7 +28,7 @@ func loadProgram(dir string, patterns ...string) (*Program, error) {
 		patterns = []string{"./x/...", "./app/...", "./pkg/..."}
 	}
 	cfg := &packages.Config{
-		Mode:       packages.LoadSyntax | packages.NeedDeps | packages.NeedImports | packages.NeedModule,
+		Mode:       packages.LoadSyntax | packages.NeedModule,
 		Dir:        dir,
 		BuildFlags: []string{"-tags=verif"},
 		Env:        append(os.Environ(), "GOFLAGS=-mod=mod", "GOPROXY=off", "GOSUMDB=off", "GOTOOLCHAIN=local"),
